@@ -48,4 +48,11 @@ def isImportOf (chars : List Char) (bytes : List Nat) : Bool :=
     the comparison false) — which is the same predicate -/
 def eqBytesSpec (chars : List Char) (bytes : List Nat) : Bool := isImportOf chars bytes
 
+/-- `asData(state, dst, filler)`: bit `i` of the exported bytes is the state's bit where it is defined, else bit `i % 8` of the filler
+    byte `(i / 8) % |filler|` (the byte `'X'` = 0x58 when no filler is given) -/
+def asDataBit (chars : List Char) (filler : List Nat) (i : Nat) : Bool :=
+  let c := chars.getD i 'x'
+  if c == '1' then true else if c == '0' then false
+  else (if filler.isEmpty then 0x58 else filler.getD ((i / 8) % filler.length) 0).testBit (i % 8)
+
 end Gatery.C18.Sig
